@@ -128,7 +128,7 @@ func nrExpected(w *workload, c nrCfg) (out []rec, perSeries []int) {
 						perSeries[i] += 2
 					}
 					forbid := func(name, statsdType, field string) {
-						add(name, s.Tags, statsdType, nil, field, 0, gsdSummary)
+						add(name, s.Tags, statsdType, nil, field, 0, gsdClass(s))
 						out[len(out)-1].Forbidden = true
 					}
 					for _, suffix := range []string{"per_second", "mean", "median", "std_dev", "sum_squares"} {
@@ -192,7 +192,7 @@ func nrExpected(w *workload, c nrCfg) (out []rec, perSeries []int) {
 					perSeries[i]++
 				}
 				for _, field := range []string{f.value, f.min, f.max, f.count, f.sum, f.perSecond, f.mean, f.median, f.stddev, f.sumsq} {
-					add(s.Name, s.Tags, field, 0, gsdSummary)
+					add(s.Name, s.Tags, field, 0, gsdClass(s))
 					out[len(out)-1].Forbidden = true
 				}
 				continue
